@@ -498,15 +498,23 @@ func (c *caseT) invoke(ph int) {
 			}
 		}
 	}
+	var cbf interfaces.FuncWithSucc = fin
+	if c.cb[ph] == "nil" && c.kind >= 1 {
+		// no completion callback at all. App.Start / App.Stop / StopNode test `finish != nil`: nothing can be logged
+		// when the phase ends; what it did to the App shows in what the next Start / Stop does. StartNode's closure
+		// calls `fin(succ)` unconditionally, after StartServices / StartNodeCtrl: a nil function call, i.e. a callback
+		// that panics without having logged anything. (ModList.Start / Stop take a mandatory callback: `nil` = none.)
+		cbf = nil
+	}
 	switch {
 	case c.kind == 2 && ph == 0:
-		c.node.StartNode("n1", fin)
+		c.node.StartNode("n1", cbf)
 	case c.kind == 2:
-		c.node.StopNode(fin)
+		c.node.StopNode(cbf)
 	case c.kind == 1 && ph == 0:
-		c.app.Start(fin)
+		c.app.Start(cbf)
 	case c.kind == 1:
-		c.app.Stop(fin)
+		c.app.Stop(cbf)
 	case ph == 0:
 		c.ml.Start(fin)
 	default:
@@ -1299,6 +1307,59 @@ func (g *gen) cbpanic(maxN int) {
 	g.h.Stats["cbpanic.cases(n,failpos,syncmask,phase,kind)"] = cases
 }
 
+// nilcb: the optional completion callbacks are left out (App.Start(nil) / App.Stop(nil) / StopNode(nil)), one or both,
+// at every list length 0..maxN x failure position or none x synchronous/delayed mask.  No fs / fx token exists then:
+// the state the App reached is observed through what the following calls do - Stop after a successful start must
+// visit the modules in reverse, after a failed one it is refused; a second Start and a second Stop are refused.
+// StartNode(id, nil): its closure calls the nil callback unconditionally after the services were started - a callback
+// that panics (swallowed by the wrapper of the module whose synchronous report ended the phase, else it reaches the
+// caller of next / StartNode); the App's state has been set before.
+func (g *gen) nilcb(maxN int) {
+	cases := 0
+	for n := 0; n <= maxN; n++ {
+		for fail := -1; fail < n; fail++ {
+			for mask := 0; mask < 1<<uint(n); mask++ {
+				for which := 0; which < 3; which++ { // start callback absent / stop callback absent / both
+					for fph := 0; fph < 2; fph++ { // the phase in which module `fail` fails
+						if fail < 0 && fph == 1 {
+							continue
+						}
+						app := 1 + (n+fail+1+mask+which+fph)%2
+						cb := []string{" cbS=nil", " cbX=nil", " cbS=nil cbX=nil"}[which]
+						outcome := func(i int) string {
+							if i == fail {
+								return "F"
+							}
+							return "T"
+						}
+						scr := func(i int) string {
+							if mask>>uint(i)&1 == 1 {
+								return "" // delayed
+							}
+							return outcome(i)
+						}
+						st, sp, po := join(n, scr), join(n, allT), [2]func(int) string{outcome, allT}
+						if fph == 1 {
+							st, sp, po = sp, st, [2]func(int) string{allT, outcome}
+						}
+						g.run(fmt.Sprintf("reset n=%d app=%d kind=gen start=%s stop=%s%s%s", n, app, st, sp, cb, g.svcOpt(app, cases)))
+						g.run("begin ph=S")
+						g.settle(0, po[0])
+						g.run("begin ph=S") // refused
+						g.run("begin ph=X")
+						g.settle(1, po[1])
+						g.run("begin ph=X") // refused
+						g.run("begin ph=S") // refused
+						cases++
+						g.h.Count("nilcb.case")
+					}
+				}
+			}
+		}
+	}
+	g.h.Stats["nilcb.cases(n,failpos,syncmask,which,phase)"] = cases
+}
+
 func (g *gen) randomScript(neg bool) string {
 	r := g.h.R.Intn(100)
 	switch {
@@ -1354,6 +1415,9 @@ func (g *gen) randomCase() {
 	} else if h.R.Intn(8) == 0 {
 		cb = []string{" cbS=panic", " cbX=panic", " cbS=panic cbX=panic"}[h.R.Intn(3)]
 		h.Count("case.callback-panics")
+	} else if !neg && app > 0 && h.R.Intn(8) == 0 {
+		cb = []string{" cbS=nil", " cbX=nil", " cbS=nil cbX=nil"}[h.R.Intn(3)]
+		h.Count("case.callback-absent")
 	} else if n >= 2 && h.R.Intn(5) == 0 {
 		// a later module registers a further module before completing; module 0 completes later, so the
 		// registration never runs inside Filter
@@ -1538,6 +1602,7 @@ func TestRun(t *testing.T) {
 	} else {
 		g.cbpanic(3)
 	}
+	g.nilcb(3)
 	g.slow(3)
 	g.nodecases()
 	g.reentrant(4)
